@@ -319,3 +319,201 @@ class LF:
                     st['var:' + e[1]] = self.ev(st, f.sym_rvalue(e[4]['rv']))
             out.append((val, ret, st))
         return out
+
+
+# ---------------------------------------------------------------------------
+# head/tail split vectors (second-order cone algebra): ('P', head polynomial, tail linear form)
+# ---------------------------------------------------------------------------
+
+
+def _is_tail_range(sym):
+    k = canon(sym)
+    return 'RangeFrom' in k and '1_usize' in k
+
+
+class LFSplit(LF):
+    """LF plus vectors addressed as v[0] (a scalar) and v[1..] (a vector), as the second-order-cone code does.
+    registry: atom -> the polynomial it is the square root / norm^2 / reciprocal of (for P_reduce relations)"""
+
+    def __init__(self, F, E, f, atoms, registry=None):
+        LF.__init__(self, F, E, f, atoms)
+        self.registry = registry if registry is not None else {}
+
+    def ev(self, st, sym, depth=0):
+        s = self._strip(sym)
+        k = canon(s)
+        if k in st:
+            return st[k]
+        if s[0] == 'cindex' and s[2] == 0 and not s[3]:
+            b = self.ev(st, s[1], depth + 1)
+            if b is not None and b[0] == 'P':
+                return ('S', b[1])
+            return self.atoms(k, s)
+        if s[0] == 'index':
+            b = self.ev(st, s[1], depth + 1)
+            if b is not None and b[0] == 'P' and _is_tail_range(s[2]):
+                return ('V', b[2])
+            if b is not None and b[0] == 'P' and canon(s[2]) == '0_usize':
+                return ('S', b[1])
+            if b is not None and b[0] == 'P':
+                return None
+            return self.atoms(k, s)
+        if s[0] == 'un' and s[1].lower() == 'neg':
+            a = self.ev(st, s[2], depth + 1)
+            if a is None:
+                return None
+            return ('S', P_neg(a[1])) if a[0] == 'S' else None
+        return LF.ev(self, st, sym, depth)
+
+    def call_value(self, st, s, depth):
+        nm = last_seg(s[1].split('#')[0])
+        args = s[2]
+        if nm in ('index', 'index_mut') and len(args) == 2:
+            b = self.ev(st, args[0], depth + 1)
+            if b is not None and b[0] == 'P' and _is_tail_range(args[1]):
+                return ('V', b[2])
+            if b is not None and b[0] == 'P':
+                return None
+        if nm == 'dot' and len(args) == 2:
+            a, b = self.ev(st, args[0], depth + 1), self.ev(st, args[1], depth + 1)
+            if a is not None and b is not None and a[0] == 'P' and b[0] == 'P':
+                return ('S', P_add(P_mul(a[1], b[1]), L_dot(a[2], b[2])))
+        if nm == 'sumsq' and len(args) == 1:
+            a = self.ev(st, args[0], depth + 1)
+            if a is not None and a[0] == 'V':
+                return ('S', L_dot(a[1], a[1]))
+            if a is not None and a[0] == 'P':
+                return ('S', P_add(P_mul(a[1], a[1]), L_dot(a[2], a[2])))
+        if nm == 'sqrt' and len(args) == 1:
+            a = self.ev(st, args[0], depth + 1)
+            if a is not None and a[0] == 'S':
+                self.registry[('sqrt', P_key(a[1]))] = a[1]
+                return ('S', P_atom(('sqrt', P_key(a[1]))))
+        if nm == 'norm' and len(args) == 1:
+            a = self.ev(st, args[0], depth + 1)
+            if a is not None and a[0] == 'V':
+                self.registry[('norm', L_key(a[1]))] = L_dot(a[1], a[1])
+                return ('S', P_atom(('norm', L_key(a[1]))))
+        if nm == 'recip' and len(args) == 1:
+            a = self.ev(st, args[0], depth + 1)
+            if a is not None and a[0] == 'S' and len(a[1]) > 1:
+                self.registry[('recip', P_key(a[1]))] = a[1]
+        return LF.call_value(self, st, s, depth)
+
+    def arith(self, op, a, b):
+        if op == 'div' and b is not None and b[0] == 'S' and len(b[1]) > 1:
+            self.registry[('recip', P_key(b[1]))] = b[1]
+        return LF.arith(self, op, a, b)
+
+    def _base_split(self, st, s):
+        """(key of the split vector, 'h'|'t') if s addresses the head or tail of a split vector"""
+        s = self._strip(s)
+        if s[0] == 'cindex' and s[2] == 0 and not s[3]:
+            bk = canon(self._strip(s[1]))
+            b = self.ev(st, s[1])
+            if b is not None and b[0] == 'P':
+                return bk, 'h'
+        if s[0] == 'index' and _is_tail_range(s[2]):
+            bk = canon(self._strip(s[1]))
+            b = self.ev(st, s[1])
+            if b is not None and b[0] == 'P':
+                return bk, 't'
+        if s[0] == 'index' and canon(s[2]) == '0_usize':
+            bk = canon(self._strip(s[1]))
+            b = self.ev(st, s[1])
+            if b is not None and b[0] == 'P':
+                return bk, 'h'
+        if s[0] == 'call' and last_seg(s[1].split('#')[0]) in ('index', 'index_mut') and len(s[2]) == 2 and _is_tail_range(s[2][1]):
+            bk = canon(self._strip(s[2][0]))
+            b = self.ev(st, s[2][0])
+            if b is not None and b[0] == 'P':
+                return bk, 't'
+        return None
+
+    def set_place(self, st, sym, val):
+        bs = self._base_split(st, sym)
+        if bs:
+            bk, part = bs
+            cur = self.ev(st, self._strip(sym)[1] if self._strip(sym)[0] != 'call' else self._strip(sym)[2][0])
+            if val is None:
+                st[bk] = None
+            elif part == 'h' and val[0] == 'S':
+                st[bk] = ('P', val[1], cur[2])
+            elif part == 't' and val[0] == 'V':
+                st[bk] = ('P', cur[1], val[1])
+            else:
+                st[bk] = None
+            return
+        LF.set_place(self, st, sym, val)
+
+    def apply_call(self, st, c):
+        f = self.f
+        nm = c.callee.name
+        args = [f.sym_operand(a) for a in c.args]
+        vm = (c.callee.trait or '').endswith('VectorMath')
+        A = lambda i: self.ev(st, args[i])
+        if vm and nm == 'copy_from' and len(args) == 2:
+            a = A(1)
+            if a is not None and a[0] == 'P':
+                self.set_place(st, args[0], a)
+                return
+        if vm and nm == 'scale' and len(args) == 2:
+            y, a = A(0), A(1)
+            if y is not None and a is not None and a[0] == 'S':
+                if y[0] == 'P':
+                    self.set_place(st, args[0], ('P', P_mul(y[1], a[1]), L_scale(y[2], a[1])))
+                    return
+                if y[0] == 'V':
+                    self.set_place(st, args[0], ('V', L_scale(y[1], a[1])))
+                    return
+            self.set_place(st, args[0], None)
+            return
+        if vm and nm == 'axpby' and len(args) == 4:
+            y, a, x, b = A(0), A(1), A(2), A(3)
+            if x is not None and x[0] == 'P':
+                if None in (y, a, b) or y[0] != 'P' or a[0] != 'S' or b[0] != 'S':
+                    self.set_place(st, args[0], None)
+                else:
+                    self.set_place(st, args[0], ('P', P_add(P_mul(a[1], x[1]), P_mul(b[1], y[1])),
+                                                 L_add(L_scale(x[2], a[1]), L_scale(y[2], b[1]))))
+                return
+        LF.apply_call(self, st, c)
+
+
+def P_reduce(poly, rules, limit=200):
+    """rewrite polynomial modulo relations.  rules: list of (pattern {atom: exponent>0}, replacement polynomial):
+    a monomial containing the pattern (exponent-wise) has that factor replaced.  Returns the normal form."""
+    for _ in range(limit):
+        changed = False
+        out = {}
+        for m, c in poly.items():
+            md = dict(m)
+            hit = None
+            for pat, rep in rules:
+                if all(md.get(a, 0) >= e for a, e in pat.items()):
+                    hit = (pat, rep)
+                    break
+            if hit is None:
+                out[m] = out.get(m, 0) + c
+                continue
+            changed = True
+            pat, rep = hit
+            rest = dict(md)
+            for a, e in pat.items():
+                rest[a] = rest[a] - e
+            restm = tuple(sorted(((a, e) for a, e in rest.items() if e != 0), key=lambda x: str(x[0])))
+            for m2, c2 in P_mul({restm: c}, rep).items():
+                out[m2] = out.get(m2, 0) + c2
+        poly = {m: c for m, c in out.items() if c != 0}
+        if not changed:
+            return poly
+    raise RuntimeError('P_reduce: no normal form within %d rounds' % limit)
+
+
+def L_reduce(form, rules):
+    out = {}
+    for k, p in form.items():
+        q = P_reduce(p, rules)
+        if q:
+            out[k] = q
+    return out
